@@ -225,17 +225,20 @@ ADDED = {
     "C03": " Call sites are read by parameter (positional or keyword), construction helpers and dispatch helpers are looked through, and the bump's "
            "(series, ceiling) slots are found by evaluating it with a zero request.",
     "C04": " The extractor and the interpreter's two mapping methods are evaluated (loops over tables of foods, setattr and spread argument lists read "
-           "like the hand-written form); the floor value is evaluated from the call site; the saved table must replace the file (no append mode).",
+           "like the hand-written form); the floor value is evaluated from the call site; the saved table must replace the file (no append mode); no function of src/ changes a "
+           "nutrient series of the result in place through a local, a list or a loop variable that is the series' own storage.",
     "C05": " The LP's reading of the meat made available is part of the claim (stock = horizon total minus eaten; without storage month m bounded by month "
-           "m's slaughter); hidden state of process-wide objects is reported.",
+           "m's slaughter; the stock may be kept at the end or at the start of the month, whatever its variables are called); hidden state of process-wide objects "
+           "and in-place changes of a handed-over series through an alias, anywhere in src/, are reported.",
     "C06": " The below-zero clamp is accepted only on paths whose conditions make the unslaughtered herd negative; the labour budget is evaluated on a "
            "small mixed herd.",
     "C07": " The priority-ordered list must not be reordered in place by any routine it is handed to (two levels); the requirement is reset on every path; "
            "the ruminant list is decided for every digestion type of the shipped species table.",
     "C08": " Whole-array (vectorised) forms are decided by generic-entry evaluation against the documented piecewise functions; the supply modules keep "
-           "no state between calls (class/module-level arrays included, writes through aliases); the cultivated-area ramp is the documented one.",
+           "no state between calls (class/module-level arrays included, writes through aliases); the cultivated-area ramp is the documented one; a "
+           "routine that is given the horizon hands it on to every routine that takes one with a default.",
     "C09": " A country without cropland has a zero greenhouse share; element types are inferred (integer results of np.piecewise / integer arrays that "
-           "receive fractional values are reported).",
+           "receive fractional values are reported); the outdoor series handed to the rounds is not changed in place by exporters or plotters.",
     "C10": " No class derived from UnitConversions replaces a conversion routine with logic of its own; every listed unit is tried as the operand's own; "
            "the factors do not depend on the fat/protein inclusion flags.",
     "C11": " min_elementwise is evaluated (every nutrient of the result is the smaller operand's on every path, whatever the inclusion flags); the "
@@ -243,9 +246,10 @@ ADDED = {
     "C12": " In every stock balance the uses stand with the end-of-month stock against the stock carried in (also in months without a supply term); waste "
            "monotonicity is read per unit of supply; the LP takes no number from the process-wide conversion settings.",
     "C13": " The country-specific nuclear-winter setters are evaluated (ratio of year k = 1 + the row's change of year k); table-driven dispatch and "
-           "dict.update are read like the if/elif and store forms; a setter that only hands over to another setter is a setter of that family.",
+           "dict.update are read like the if/elif and store forms; a setter that only hands over to another setter is a setter of that family; a "
+           "validation pass made before the dispatch must accept exactly the values that have an arm.",
     "C14": " One-level copies of shared nested containers, process-wide objects that keep containers, and containers carried from one iteration of the "
-           "simulation / country loops into the run of the next are reported.",
+           "simulation / country loops into the run of the next (a container, or a setting re-bound only under a condition) are reported.",
     "C15": " The map helper is followed when the loop uses its return value; file-writing helpers are recorded, not followed.",
     "C17": " Every create_*_csv.py is executed abstractly at module level: the columns of one family are derived alike from one raw column each.",
     "C18": " The evaluated fill reads shared priority tables of other classes and series summed before indexing; the re-timed series is what the "
@@ -253,7 +257,7 @@ ADDED = {
 }
 ROBUST = (" The rules read a canonical form of the syntax trees (comparison orientation, if/else polarity, else-after-return, keyword/positional "
           "arguments, range(0, n), method values) named tuples, tuple parameters; renamed parameters and methods are read under the names of the reference tree) and statement-level inlined helpers, so behaviour-preserving rewrites do not change the verdict "
-          "(168 sub-agent refactorings, corrected twins of the seeded vectorisations and 18 kinds of whole-tree probes are replayed by the thorough tier).")
+          "(192 sub-agent refactorings, corrected twins of the seeded refactorings and 18 kinds of whole-tree probes are replayed by the thorough tier).")
 
 
 def main():
